@@ -42,6 +42,11 @@ def check(run: Run) -> None:
     from .c04 import check_snapshot
 
     run.rule("C20.R7", "captured values come from the callable's own closure and module globals, none filtered out: a constant that stays a bare name hashes the same for every value")
+    # .. and only immutable scalars may sit in a Constant: ast.dump prints repr() of anything else (set order, addresses)
+    run.rule("C20.R8", "check_ast gates the emitted lambda of every operator before construction (C13.R3 re-evaluated)")
+    from ..report import run_stage
+
+    run_stage(run, "c13", only={"C13.R3"})
     check_snapshot(Relabel(run, "C20.R7"), TermCtx(m, max_depth=2, opaque={"as_literal", "_parse_source_for_lambda"}), m, m.find_class("_rewrite_captured_vars", in_module="func_adl.util_ast"))
 
 
